@@ -99,6 +99,12 @@ int main(int argc, char** argv) {
         SU_vector r1 = v.Rotate(Ug.get()); cmpvec("Rotate(U):not-B1", d, r1, wantB1, tol, ctx);
         SU_vector r2 = v.UTransform(Ug.get()); cmpvec("UTransform(U):not-B1", d, r2, wantB1, tol, ctx);
         SU_vector r3 = v.UDaggerTransform(Ug.get()); cmpvec("UDaggerTransform(U):not-B0", d, r3, wantB0, tol, ctx);
+        if (a + 3 >= al.vecs.size()) {   // the same U as a strided view inside a larger matrix
+          gsl_matrix_complex* big = gsl_matrix_complex_alloc(8, 9); gsl_matrix_complex_set_all(big, gsl_complex_rect(3.5, 1.25));
+          gsl_matrix_complex_view vw = gsl_matrix_complex_submatrix(big, 2, 1, d, d); gsl_matrix_complex_memcpy(&vw.matrix, Ug.get());
+          SU_vector s1 = v.Rotate(&vw.matrix), s2 = v.UTransform(&vw.matrix), s3 = v.UDaggerTransform(&vw.matrix); count("evaluations");
+          if (maxdiff(comps(s1), comps(r1)) != 0 || maxdiff(comps(s2), comps(r2)) != 0 || maxdiff(comps(s3), comps(r3)) != 0) violation("U-sandwich:strided-view-differs-from-contiguous:d=" + std::to_string(d), ctx);
+          gsl_matrix_complex_free(big); }
         // invariants: identity component and scalar products
         for (const SU_vector* r : {&v1, &v0, &r1, &r2, &r3}) if (!(std::fabs((*r)[0] - al.vecs[a][0]) <= tol)) violation("basis-change:identity-component-not-preserved:d=" + std::to_string(d), ctx);
         { SU_vector p0 = mkvec(d, probe(d, 0)), q = p0; q.RotateToB1(par); double before = v * p0, after = v1 * q; if (!(std::fabs(before - after) <= 4 * d * d * tol * maxabs(probe(d, 0)))) violation("basis-change:scalar-product-not-preserved:d=" + std::to_string(d), ctx); }
@@ -121,6 +127,28 @@ int main(int argc, char** argv) {
           if (!(ea <= xtol)) violation("WeightedRotation:overloads-disagree-when-Yd-aliases-the-vector:d=" + std::to_string(d), "{\"ctx\":" + ctx + ",\"const\":" + jarr(comps(x1)) + ",\"matrix\":" + jarr(comps(x2)) + "}");
         }
       }
+    }
+  }
+  // ---- (2b) one Const object through a history of updates: the matrix must always be the one of the CURRENT parameters ----
+  if (ar.shard == 0) {
+    struct Upd { int kind; unsigned i, j; double v; };  // 0 angle, 1 phase
+    std::vector<Upd> hist = {{0, 0, 1, 0.6}, {1, 0, 1, 0.9}, {1, 0, 1, -1.3}, {0, 1, 2, -0.8}, {1, 1, 2, 0.4}, {1, 0, 2, 2.2}, {0, 0, 2, 0.5}, {1, 0, 2, -0.7}, {1, 3, 5, 1.1}, {0, 3, 5, 0.9}, {1, 3, 5, 0.2}, {0, 0, 1, 0.0}, {1, 0, 1, 0.3}, {0, 0, 1, 1.2}};
+    // two query patterns: the same dimension asked again and again on one object (dloop = 0: one object per dimension), and all
+    // dimensions asked in turn after every update (dloop = 1)
+    for (int dloop = 0; dloop < 2; dloop++) for (int dfix = 2; dfix <= (dloop ? 2 : 6); dfix++) { Const par;
+    for (size_t step = 0; step < hist.size(); step++) {
+      const Upd& u = hist[step]; if (u.kind == 0) par.SetMixingAngle(u.i, u.j, u.v); else par.SetPhase(u.i, u.j, u.v);
+      for (int d = (dloop ? 2 : dfix); d <= (dloop ? 6 : dfix); d++) {
+        count("evaluations"); distinct(ref::fnv(&step, sizeof step, 4242 + d));
+        // the same parameters stored into a brand-new object must give the same matrix
+        Const fresh; for (unsigned i = 0; i < 6; i++) for (unsigned j = i + 1; j < 6; j++) { fresh.SetMixingAngle(i, j, par.GetMixingAngle(i, j)); fresh.SetPhase(i, j, par.GetPhase(i, j)); }
+        auto U1 = par.GetTransformationMatrix(d); auto U2 = fresh.GetTransformationMatrix(d);
+        double e = ref::maxabs(gsl2mat(U1.get()) - gsl2mat(U2.get()));
+        SU_vector p1 = mkvec(d, probe(d, 0)), p2 = p1; p1.RotateToB1(par); SU_vector viaU = p2.Rotate(U1.get());
+        double e2 = maxdiff(comps(p1), comps(viaU)), tol2 = 64 * d * ref::EPS * maxabs(probe(d, 0)) * (d * (d - 1) / 2 + 1);
+        if (!(e == 0) || !(e2 <= tol2)) violation("GetTransformationMatrix:stale-after-parameter-update:d=" + std::to_string(d), J().i("d", d).i("update_step", (long long)step).str("update", u.kind ? "SetPhase" : "SetMixingAngle").i("i", u.i).i("j", u.j).num("value", u.v).num("matrix_diff_vs_fresh_object", e).num("Rotate(U)_vs_RotateToB1", e2).done());
+      }
+    }
     }
   }
   // ---- (3) parameter store ----
